@@ -360,8 +360,14 @@ structure Table where
 
 def Table.empty : Table := ⟨none, []⟩
 
+/-- `_write_rows_to_csv`: a call that writes the header creates the file (through
+`results.csv.tmp` + `os.replace`); a `results.csv` already there — written by another `Search` /
+evaluator since this evaluator was created — is renamed first, so the file then holds this call's
+lines only.  Later calls append. -/
 def Table.add (t : Table) (o : DumpOut) : Table :=
-  ⟨match t.header with | some h => some h | none => o.header, t.rows ++ o.rows⟩
+  match o.header with
+  | some h => ⟨some h, o.rows⟩
+  | none => ⟨t.header, t.rows ++ o.rows⟩
 
 def DumpState.fresh : DumpState := ⟨false, none, none, []⟩
 
@@ -381,9 +387,10 @@ def allJobs (ops : List (List JobRec × Bool)) : List JobRec := ops.flatMap (·.
 /-! ### several `Search` objects on one `log_dir`
 
 `Search.__init__`: when `results.csv` exists it is renamed (`Evaluator.rename_existing_file`, the
-earlier table lives on in the backup file — C15) and `_columns_dumped = None`,
-`_start_dumping = False` are set on the evaluator it was given, so that an `Evaluator` instance
-that already dumped for an earlier `Search` writes a header into the new file.  `num_objective`,
+earlier table lives on in the backup file — C15); `_columns_dumped = None`,
+`_start_dumping = False` are set on the search's evaluator unconditionally, so that an `Evaluator`
+instance that already dumped for an earlier `Search` (in this or another directory) writes a
+header into the new file.  `num_objective`,
 `jobs_done` and the job-id counter of a re-used evaluator are kept.  The file exists iff its
 header was written (`_write_rows_to_csv` creates it with the header, through a temporary file). -/
 
@@ -393,14 +400,23 @@ inductive EvalChoice
   | reuse   -- the `Evaluator` instance of the previous `Search`
   deriving DecidableEq, Repr
 
-/-- `Search(problem, evaluator, log_dir=…)` : evaluator state and `results.csv` afterwards -/
+/-- `Search(problem, evaluator, log_dir=…)` : evaluator state and `results.csv` afterwards.
+An existing `results.csv` is renamed; the dump state of the evaluator is reset **in every case**
+(`72663f8`: also when the directory has no `results.csv`, e.g. an evaluator that dumped for a
+search in another directory). -/
 def searchInit (c : EvalChoice) (st : DumpState) (t : Table) : DumpState × Table :=
   let ev := match c with
     | .fresh => DumpState.fresh
     | .reuse => st
-  match t.header with
-  | some _ => ({ ev with started := false, columns := none }, Table.empty)
-  | none => (ev, t)
+  ({ ev with started := false, columns := none },
+   match t.header with
+   | some _ => Table.empty
+   | none => t)
+
+/-- a `Search` object that was constructed earlier, while `results.csv` did not exist yet (nothing
+to rename, nothing to reset), starts dumping now with its own fresh evaluator: the table written
+meanwhile by another `Search` is renamed by the first write (`Table.add`) -/
+def searchInitEarly (_st : DumpState) (t : Table) : DumpState × Table := (DumpState.fresh, t)
 
 /-- the seeded change C04-3: the rename without the reset of the evaluator's dump state -/
 def searchInitNoReset (c : EvalChoice) (st : DumpState) (t : Table) : DumpState × Table :=
